@@ -177,6 +177,7 @@ func (sl *SpecLib) AddText(text string, pre bool) error {
 					}
 					sl.Fns[cf.Name] = cf
 					sl.Fns["is-"+cf.Name] = &SpecFn{Name: "(_ is " + cf.Name + ")", Args: []string{sname}, Res: SBool}
+					sl.Fns["is_"+cf.Name] = sl.Fns["is-"+cf.Name]
 				}
 			}
 		}
